@@ -191,7 +191,9 @@ def voxel_from_binvox(rle_data, shape, translate=None, scale=1.0, axis_order="xz
     # translate = np.asanyarray(translate) * scale)
     # translate = [0, 0, 0]
     transform = transformations.scale_and_translate(
-        scale=scale / (np.array(shape) - 1), translate=translate
+        # an axis one cell thick has no extent: the scale is its pitch
+        scale=scale / np.maximum(np.array(shape) - 1, 1),
+        translate=translate,
     )
 
     if axis_order == "xzy":
@@ -264,6 +266,9 @@ def export_binvox(voxel, axis_order="xzy"):
     (neg_scale,) = np.where(scale < 0)
     # a flipped axis starts at what was its far end
     translate[neg_scale] += scale[neg_scale]
+    # an axis one cell thick has no extent: its pitch stands in for it
+    thin = np.array(voxel.shape) == 1
+    scale[thin] = np.abs(voxel.scale)[thin]
     encoding = voxel.encoding.flip(neg_scale)
     scale = np.abs(scale)
     # the spread of the three extents, in the grid's own unit
